@@ -218,3 +218,22 @@ def header_constants(wd):
     if len(consts) < 300:
         raise AnalysisBroken("hdrx: only %d constants folded" % len(consts))
     return consts
+
+
+def sys_constants(wd, header, names):
+    """integer values of macros from a system header as the compiler folds them (e.g. PROT_NONE)"""
+    src = os.path.join(wd, "sysk.c")
+    with open(src, "w") as f:
+        f.write("#define _GNU_SOURCE 1\n#include <%s>\n" % header)
+        for n in names:
+            f.write("const long long SYSK_%s = (long long)(%s);\n" % (n, n))
+    p = subprocess.run([CLANG, "-O0", "-w", "-S", "-emit-llvm", "-o", os.path.join(wd, "sysk.ll"), src],
+                       capture_output=True, text=True)
+    if p.returncode != 0:
+        raise AnalysisBroken("cannot evaluate system constants %s: %s" % (names, p.stderr[-300:]))
+    out = {}
+    for line in open(os.path.join(wd, "sysk.ll")):
+        m = re.match(r"@SYSK_(\w+) = .*constant i64 (-?\d+)", line)
+        if m:
+            out[m.group(1)] = int(m.group(2))
+    return out
